@@ -259,6 +259,10 @@ def run_one(seed, idx, tier):
     try:
         status, detail, extra = explore(prog, text, tn, seed, idx, tier, stats)
     except VhdlError as e:
+        if e.rule == "sensitivity" and prog["reset"]["kind"].startswith("async"):
+            # part of THIS statement: an asynchronous reset acts at any instant, so the process has to wake up on it
+            res.update(status="violation", vclass="asynchronous-reset-missing-from-the-sensitivity-list", detail={"msg": str(e)[:300]}, payload={"prog": prog, "source": src, "vhdl": text, "seed": seed, "idx": idx, "tier": tier, "case": None}, stats=stats)
+            return res
         res.update(status="skipped", reason="illegal-vhdl:" + str(e.rule), stats=stats)
         return res
     except Unsupported as e:
@@ -286,6 +290,8 @@ def replay(payload):
     try:
         status, detail, _ = explore(prog, text, tn, payload["seed"], payload["idx"], payload["tier"], stats)
     except VhdlError as e:
+        if e.rule == "sensitivity" and prog["reset"]["kind"].startswith("async"):
+            return "asynchronous-reset-missing-from-the-sensitivity-list", {"msg": str(e)[:300]}
         return "legality", {"rule": e.rule, "msg": str(e)}
     except kernel.ReadBeforeWrite as e:
         return "rbw", {"msg": str(e)}
